@@ -112,14 +112,15 @@ def gen_records(rng):
         seq += [i] * (1 if mode == "single" and rng.random() < 0.7 else rng.randint(1, 5))
     if mode == "interleaved":
         rng.shuffle(seq)
-    pools_for = {i: rng.choice((None, "p1", "p1", "p2")) for i in ids}
+    # labels include falsy-but-not-None values (batch number 0, empty string): None alone means "unknown"
+    pools_for = {i: rng.choice((None, "p1", "p1", "p2", 0, "", 1)) for i in ids}
     conflict_ids = set(i for i in ids if rng.random() < 0.12)
     for i in seq:
         cs = rng.sample(contests, rng.randint(0, len(contests)))
         votes = {c: {rng.choice("ABCD"): rng.choice((1, 2, True, "x", 0)) for _ in range(rng.randint(0, 3))} for c in cs}
         tp = pools_for[i] if rng.random() < 0.6 else None
         if i in conflict_ids and rng.random() < 0.5:
-            tp = rng.choice(("p1", "p2", "p3"))
+            tp = rng.choice(("p1", "p2", "p3", 0, ""))
         recs.append({"id": i, "votes": votes, "phantom": rng.random() < 0.4, "pool": rng.random() < 0.35, "tally_pool": tp})
     return recs
 
